@@ -1,5 +1,6 @@
 #!/bin/bash
 # tools/seed.sh <Cxx> <k> <pkgdir-for-demo | -> [check-id...]
+# (DESTK=<n> files the change as /verif/seeded/<Cxx>-<n> instead of <Cxx>-<k>.)
 # Validates seeded change k of /tmp/out-<Cxx>/ in the scratch worktree /tmp/wt-<Cxx> (suite passes with the
 # patch, demo fails with it and passes without it), then applies it to /repo, runs the given checks
 # (default: the property's own quick check), reverts /repo, and files the change under /verif/seeded/<Cxx>-<k>/.
@@ -40,8 +41,8 @@ for c in $CHECKS; do
   [ $rc = 1 ] && CAUGHT="$CAUGHT $c"
 done
 git -C /repo checkout -q -- . 
-D=/verif/seeded/$ID-$K; mkdir -p $D; cp "$PATCH" $D/patch.diff; cp "$DEMO" $D/; 
-python3 - "$ID" "$K" "$OUT/meta$K.json" "$CAUGHT" "$CHECKS" "$PKG" <<'PY'
+DK=${DESTK:-$K}; D=/verif/seeded/$ID-$DK; mkdir -p $D; cp "$PATCH" $D/patch.diff; cp "$DEMO" $D/; 
+python3 - "$ID" "$DK" "$OUT/meta$K.json" "$CAUGHT" "$CHECKS" "$PKG" <<'PY'
 import json,sys
 id,k,meta,caught,checks,pkg=sys.argv[1:7]
 try: m=json.load(open(meta))
